@@ -8,6 +8,7 @@ import (
 	"path/filepath"
 	"sort"
 	"strings"
+	"sync"
 	"testing"
 	"time"
 
@@ -451,4 +452,97 @@ func describeTree(all []c19Ent) string {
 
 func TestVerifC19_ProcWalker(t *testing.T) {
 	rapid.Check(t, c19ProcWalker)
+}
+
+// The walker feeding filter mode (fzf --filter with the terminal as standard input lists the
+// files itself): a tree of a few thousand files in many directories, so that the walker's
+// workers deliver entries at the same time. Every file is printed exactly once, whichever way
+// the filter runs (streaming with --no-sort, sorted, reversed, synchronous).
+var c19BigTreeOnce sync.Once
+var c19BigTreeDir string
+var c19BigTreeFiles []string
+
+func c19BigTree() (string, []string) {
+	c19BigTreeOnce.Do(func() {
+		dir, err := os.MkdirTemp(workDir, "c19big")
+		if err != nil {
+			return
+		}
+		for d := 0; d < 48; d++ {
+			sub := filepath.Join(dir, fmt.Sprintf("d%02d", d), fmt.Sprintf("s%d", d%3))
+			os.MkdirAll(sub, 0o755)
+			for f := 0; f < 110; f++ {
+				rel := filepath.Join(fmt.Sprintf("d%02d", d), fmt.Sprintf("f%03d-%02d.txt", f, d))
+				if f%4 == 0 {
+					rel = filepath.Join(fmt.Sprintf("d%02d", d), fmt.Sprintf("s%d", d%3), fmt.Sprintf("g%03d-%02d.txt", f, d))
+				}
+				os.WriteFile(filepath.Join(dir, rel), nil, 0o644)
+				c19BigTreeFiles = append(c19BigTreeFiles, rel)
+			}
+		}
+		c19BigTreeDir = dir
+	})
+	return c19BigTreeDir, c19BigTreeFiles
+}
+
+func c19WalkerFilter(t *rapid.T) {
+	dir, files := c19BigTree()
+	if dir == "" {
+		infra(t, "cannot build the tree")
+	}
+	query := rapid.SampledFrom([]string{"", "", "f0", "g1", "d07"}).Draw(t, "query")
+	mode := rapid.SampledFrom([]string{"--no-sort", "--no-sort", "", "--tac --no-sort", "--sync --no-sort", "--tac"}).Draw(t, "mode")
+	args := []string{"--filter", query, "--walker=file"}
+	args = append(args, strings.Fields(mode)...)
+	s := StartSession(t, SessionCfg{Args: args, NoStdin: true, NoListen: true, Cwd: dir, Width: 80, Height: 12, Env: []string{"FZF_DEFAULT_COMMAND="}})
+	defer s.Close()
+	code, ok := s.WaitExit(60 * time.Second)
+	if !ok {
+		infra(t, "fzf --filter did not finish within 60 s")
+	}
+	var want []string
+	for _, f := range files {
+		if query == "" || simpleFuzzy(query, f) {
+			want = append(want, f)
+		}
+	}
+	got := strings.Split(strings.TrimSuffix(string(s.Stdout()), "\n"), "\n")
+	if len(s.Stdout()) == 0 {
+		got = nil
+	}
+	vstat.Case("C19/walker-filter", fmt.Sprintf("%q", args), mode == "--no-sort", "mode="+mode, "query="+query)
+	count := map[string]int{}
+	for _, g := range got {
+		count[g]++
+	}
+	missing, twice, extra := 0, 0, 0
+	example := ""
+	for _, w := range want {
+		switch c := count[w]; {
+		case c == 0:
+			missing++
+			if example == "" {
+				example = w + " is missing"
+			}
+		case c > 1:
+			twice++
+			if example == "" {
+				example = fmt.Sprintf("%s is printed %d times", w, c)
+			}
+		}
+		delete(count, w)
+	}
+	for g := range count {
+		extra++
+		if example == "" {
+			example = g + " is printed but does not match / does not exist"
+		}
+	}
+	if missing+twice+extra > 0 || code != 0 && len(want) > 0 {
+		t.Fatalf("fzf %q in a tree of %d files (status %d): %d lines printed, %d expected; %d files missing, %d printed more than once, %d unexpected lines; e.g. %s", args, len(files), code, len(got), len(want), missing, twice, extra, example)
+	}
+}
+
+func TestVerifC19_ProcWalkerFilter(t *testing.T) {
+	rapid.Check(t, c19WalkerFilter)
 }
